@@ -2,7 +2,7 @@ from __future__ import annotations
 
 from typing import Callable
 
-from ._type_qualifier import Port, Generic, TypeQualifier
+from ._type_qualifier import Port, Generic, TypeQualifier, Signal, Temporary
 from ._collect_ast_and_scope import FunctionDefinition, InstantiatedFunction
 from cohdl.utility.source_location import SourceLocation
 from ._intrinsic import _intrinsic, _intrinsic_replacement, _IntrinsicInlineEntity
@@ -341,8 +341,18 @@ class Entity(Block):
 
     @_intrinsic_replacement(__init__)
     def _init_replacement(self, **kwargs):
+        # results of expressions (temporaries) cannot be connected to ports,
+        # they are assigned to signals that take their place in the port map
+        assignments = []
+
+        for name, value in kwargs.items():
+            if isinstance(value, Temporary):
+                signal = Signal[value.type]()
+                assignments.append((signal, value))
+                kwargs[name] = signal
+
         self.__init__(**kwargs)
-        return _IntrinsicInlineEntity(self)
+        return _IntrinsicInlineEntity(self, assignments)
 
     def architecture(self): ...
 
